@@ -262,6 +262,11 @@ def run(ctx):
                 elif (r1_.exc is None) != (r2_.exc is None):
                     ctx.violation(f"titrate-only:with-chain:exception:{nm_}", f"-i {lst_}: alone -> {r1_.exc!r}; with -c {sel_!r} -> {r2_.exc!r}",
                                   {"pdb": txt_, "optargs": ["-i", lst_, "-c", sel_]})
+    # lists that name two chains: a number listed for one chain is not listed for the other (also when the other chain
+    # does not exist)
+    two_ = C.join(C.chain_lines("1HPX", "A", 23, 8) + [C.TER] + C.chain_lines("1HPX", "B", 23, 8) + [C.TER])
+    for lst_ in ("A:25,B:29", "A:29,B:30", "A:25,Z:29", "B:30,A:999"):
+        cases.append((f"frag-2chains -i {lst_}", two_, ["-i", lst_]))
     # census with the option (Trace_Run!C01_Census uses ListedRes)
     recs, metas, _ = runbank.run_and_record(ctx, cases)
     viol = runbank.validate(ctx, recs, metas, ["C01_Census", "C01_ExactlyOnce", "C14_UnlistedUnscored"], "titrate-only census")
